@@ -33,6 +33,8 @@ func NewSession(c *Client, state SMState) (*Session, error) {
 		s.init()
 	} else {
 		s = c.Session
+		// TLS has to be negotiated again on every new connection.
+		s.TlsEnabled = false
 		// We keep information about the previously set session, like the session ID, but we read server provided
 		// info again in case it changed between session break and resume, such as features.
 		s.init()
